@@ -4,6 +4,7 @@ import SfVerif.Lemmas.F64Exact
 import SfVerif.Lemmas.Codes
 import SfVerif.Lemmas.Lazy7
 import SfVerif.Lemmas.Ctx5
+import SfVerif.Lemmas.DocLink7
 /-! C01 — lazy reads equal eager decoding for every document and access history. -/
 namespace SfVerif.Props.C01
 open SfVerif SfVerif.Gen
@@ -201,6 +202,71 @@ theorem C01_answer_independent_of_history (c1 c2 : Ctx) (h1 : CInv c1) (h2 : CIn
   · rw [(getObjProp_node_ok h1 hm1 q).1, (getObjProp_node_ok h2 hm2 q).1, hb]
   · rw [(getValLen_node_ok h1 hm1).1, (getValLen_node_ok h2 hm2).1, hb]
   · rw [(getValLen_node_ok h1 hm1).2, (getValLen_node_ok h2 hm2).2, hb]
+
+/-! ### against the fully decoded document tree -/
+
+/-- **the specification is the decoded tree**: when the whole input decodes (tree decoder
+    `Model/Doc.decodeAll`, every byte consumed, string keys) to the document `d`, then for every
+    position `path` of `d` the answers `Spec/Read` computes by walking headers are the answers
+    read off the sub-document at that position: the boxed value (type, nearest double of an
+    integer, exact widening of a float32, string length, container length), element / value / key by
+    index, first-match property by name (`null` when missing), length -/
+theorem C01_spec_is_the_decoded_tree (b : Bytes) (d : Doc) (hd : Decodes b d) (h : Handle) (dc : Doc)
+    (hc : d.getPath? h.path = some dc) :
+    Spec.valueAt b h.root h.path = dc.box h ∧
+    (∀ i, Spec.getAtIndex b h i = DocSpec.getAtIndex dc h i) ∧
+    (∀ i, Spec.getKeyAtIndex b h i = DocSpec.getKeyAtIndex dc h i) ∧
+    (∀ q, Spec.getObjProp b h q = DocSpec.getObjProp dc h q) ∧
+    Spec.getValLen b h = some (DocSpec.getValLen dc) :=
+  ⟨valueAt_doc hd hc h.root, fun i => getAtIndex_doc hd hc i, fun i => getKeyAtIndex_doc hd hc i,
+   fun q => getObjProp_doc hd hc q, getValLen_doc hd hc⟩
+
+/-- **lazy reads equal eager decoding**: in every reachable context over a document that decodes
+    to `d`, a valid handle is a position of `d`, and every read entry point returns exactly what
+    the sub-document at that position says — whatever was visited before -/
+theorem C01_reads_are_the_decoded_tree (c : Ctx) (hc : CInv c) (d : Doc) (hd : Decodes c.input d)
+    (h : Handle) (m : Node) (hm : c.nodeAt? h = some m) :
+    ∃ dc, d.getPath? h.path = some dc ∧
+      (∀ i, (c.getAtIndex (.node h) i).2 = DocSpec.getAtIndex dc h i) ∧
+      (∀ i, (c.getKeyAtIndex (.node h) i).2 = DocSpec.getKeyAtIndex dc h i) ∧
+      (∀ q, (c.getObjProp (.node h) q).2 = DocSpec.getObjProp dc h q) ∧
+      c.getValLen (.node h) = some (DocSpec.getValLen dc) := by
+  obtain ⟨dc, hdc⟩ := handle_in_doc hc hd hm
+  refine ⟨dc, hdc, ?_, ?_, ?_, ?_⟩
+  · intro i; rw [(getAtIndex_node_ok hc hm i).1]; exact getAtIndex_doc hd hdc i
+  · intro i; rw [(getKeyAtIndex_node_ok hc hm i).1]; exact getKeyAtIndex_doc hd hdc i
+  · intro q; rw [(getObjProp_node_ok hc hm q).1]; exact getObjProp_doc hd hdc q
+  · rw [(getValLen_node_ok hc hm).1]; exact getValLen_doc hd hdc
+
+/-- the string bytes behind a string handle are the decoded string: offset and length delimit
+    exactly `bs` in the input (this is the extent `read_utf8_str` copies) -/
+theorem C01_string_bytes (b : Bytes) (d : Doc) (hd : Decodes b d) (h : Handle) (bs : Bytes)
+    (hc : d.getPath? h.path = some (.str bs)) :
+    ∃ off, Spec.strOffset b h = some off ∧ Spec.getValLen b h = some bs.size ∧
+      b.extract off (off + bs.size) = bs := by
+  obtain ⟨p, f, e, hdr, hp, _, _, _, hrd, hdoc⟩ := doc_at hd hc
+  have hhdr : Spec.hdrAt b h = some hdr := by simp only [Spec.hdrAt, hp, hrd]
+  cases hdr with
+  | scalar v ee =>
+    cases v with
+    | str off len =>
+      simp only [HdrDoc] at hdoc
+      obtain ⟨rfl, hle⟩ := hdoc
+      have hsz : (b.extract off (off + len)).size = len := by simp [Array.size_extract]; omega
+      refine ⟨off, by simp only [Spec.strOffset, hhdr], ?_, by rw [hsz]⟩
+      simp only [Spec.getValLen, hhdr, mkNode, Node.valueLength, hsz]
+    | null => simp [HdrDoc] at hdoc
+    | bool x => simp [HdrDoc] at hdoc
+    | num x => simp [HdrDoc, Doc.numBits?] at hdoc
+  | arr l bd => simp [HdrDoc] at hdoc
+  | map l bd => simp [HdrDoc] at hdoc
+
+/-- non-vacuity: `[[1],{"a":2}]` decodes, with string keys only -/
+example : Decodes #[0x92, 0x91, 1, 0x81, 0xa1, 0x61, 2]
+    (.arr [.arr [.int 1], .map [(.str #[0x61], .int 2)]]) := by
+  constructor
+  · simp [decodeAll, decodeAt, decodeN, decodePairs, markerOf, markerTagged, strDoc]
+  · simp [Doc.keysStr, Doc.keysStrList, Doc.keysStrPairs]
 
 /-- non-vacuity: `[[1],{"a":2}]` is well-formed, and a history that fetches the root, takes
     element 1, looks up `"a"` in it, revisits element 0, asks its length and indexes into a null
